@@ -143,9 +143,13 @@ def check(run, F, tier):
         handle(r1, name, f, tag)
     if feed:
         # framer explored on its own (PacketBuilder is not inlined into recv)
-        obs, st = panics.collect(F, feed["path"], inline_pred=lambda ex, callee, info: callee.get("impl_self", "").startswith("mqtt::connection::packet_builder::")
-                                 or callee.get("impl_self", "").startswith("mqtt::common::cursor::Cursor")
-                                 or callee.get("kind") == "Closure", facts_hook=C04.consumed_facts)
+        inl_feed = lambda ex, callee, info: callee.get("impl_self", "").startswith("mqtt::connection::packet_builder::") \
+            or callee.get("impl_self", "").startswith("mqtt::common::cursor::Cursor") or callee.get("kind") == "Closure"
+        # ledger keys name the framer's fields by role (discovered by type and use), not by their current spelling
+        from rules import c09 as C09
+        exf = explore.Explorer(F, loop_k=1, inline_pred=inl_feed)
+        roles = C09.discover_roles(F, exf.run(feed["path"]), exf.interned_rev)
+        obs, st = panics.collect(F, feed["path"], inline_pred=inl_feed, facts_hook=C04.consumed_facts, rename={v: k for k, v in roles.items()})
         for o in obs:
             if o.status == "discharged":
                 mech += 1
